@@ -173,6 +173,28 @@ def likelihood_chain(c, kind, m=2, n=2, noise='scalar'):
     c.eq('posterior_gradient_is_derivative_of_own_logd', post.gradient(x), c.grad_of(lambda v: post.logd(v), x), tol=1e-4)
 
 
+def multiple_likelihood_posterior(c, config, m=2, n=2):
+    """MultipleLikelihoodPosterior built directly from its densities: gradient == derivative of the object's OWN logd, whatever kinds of
+    likelihood it holds (data-distribution likelihoods, user-defined likelihoods given by functions), or the call is refused"""
+    from cuqi.likelihood import UserDefinedLikelihood
+    x = c.vec('x', n); s = c.real('s', pos=True)
+    A = c.mat('A', m, n); B = c.mat('B', m, n)
+    ya = c.vec('ya', m); yb = c.vec('yb', m); w = c.vec('w', n, pos=True)
+    prior = Gaussian(c.vec('mu', n), c.real('pv', pos=True), name='x')
+    La = Gaussian(cuqi.model.LinearModel(A), s, name='ya').to_likelihood(ya)
+    Lb = Gaussian(cuqi.model.LinearModel(B), 2 * s, name='yb').to_likelihood(yb)
+    geom = cuqi.geometry._DefaultGeometry1D(n)
+    Lu = UserDefinedLikelihood(dim=n, logpdf_func=lambda x: -np.sum(w * (x - 1) ** 4), gradient_func=lambda x: -4 * w * (x - 1) ** 3, geometry=geom)
+    dens = {'two_data_likelihoods': (La, Lb, prior), 'data_and_user_defined_likelihood': (La, Lu, prior), 'user_defined_first': (Lu, La, prior),
+            'three_likelihoods': (La, Lu, Lb, prior)}[config]
+    P = cuqi.distribution.MultipleLikelihoodPosterior(*dens)
+    try: g = P.gradient(x)
+    except NotImplementedError:
+        c.holds('gradient_refused', True); return
+    c.holds('gradient_is_a_vector_of_the_variable_shape', np.shape(g) == (n,), note=f"shape {np.shape(g)}")
+    c.eq('gradient_is_derivative_of_own_logd', g, c.grad_of(lambda v: P.logd(v), x), tol=1e-4)
+
+
 def reassignment_history(c, kind, n=3):
     """gradient, then assign new parameter values to the SAME object, then gradient again: still the derivative of the
     object's current log-density (no stale intermediate results survive a parameter change)"""
@@ -267,4 +289,7 @@ def jobs(tier):
     for kind in ('Gaussian:cov', 'Gaussian:prec', 'GMRF', 'CMRF', 'Cauchy', 'conditional_GMRF'):
         J.append(Job(f'history:gradient_after_parameter_reassignment:{kind}', lambda c, k=kind: reassignment_history(c, k), 'Pbox', Dg, rtol=1e-4))
     J.append(Job('UserDefinedDistribution.gradient', userdefined, 'Pbox', [f'{D}._custom:UserDefinedDistribution.gradient']))
+    for cfg in ('two_data_likelihoods', 'data_and_user_defined_likelihood', 'user_defined_first', 'three_likelihoods'):
+        J.append(Job(f'MultipleLikelihoodPosterior.gradient:sum_over_all_densities:{cfg}', lambda c, cfg=cfg: multiple_likelihood_posterior(c, cfg), 'Pbox',
+                     [f'{D}._joint_distribution:MultipleLikelihoodPosterior.gradient', 'cuqi.likelihood._likelihood:UserDefinedLikelihood.gradient'], rtol=1e-4, timeout=300))
     return J
